@@ -6,7 +6,7 @@ WT=$(mktemp -d /tmp/mutwt_XXXXXX); rmdir $WT
 git -C /repo worktree add --detach $WT HEAD >/dev/null 2>&1 || { echo "cannot create worktree"; exit 3; }
 mkdir -p $WT/_build/include; cp /repo/_build/include/st_config.h $WT/_build/include/ 2>/dev/null
 if git -C $WT apply "$D"; then
-  VERIF_REPO=$WT /verif/bin/check $P "$@" 2>&1 | grep -E "^(VIOLATION|KNOWN|UNDECIDED|OK|ALSO)" | cut -c1-300
+  VERIF_REPO=$WT /verif/bin/check $P --no-evidence "$@" 2>&1 | grep -E "^(VIOLATION|KNOWN|UNDECIDED|OK|ALSO)" | cut -c1-300
   echo "exit=${PIPESTATUS[0]}"
 else echo "PATCH DOES NOT APPLY"; fi
 git -C /repo worktree remove --force $WT
